@@ -361,10 +361,10 @@ def encode_request_header(api_key, version, correlation_id, client_id, tags=None
                                   "correlation_id": correlation_id, "client_id": client_id})
 
 
-def encode_response(api_key, version, correlation_id, body):
+def encode_response(api_key, version, correlation_id, body, header_tags=None):
     sch = RESPONSES[(api_key, version)]
     if (api_key, version) in FLEXIBLE and api_key != 18:
-        hdr = encode(RESP_HEADER_V1, {"correlation_id": correlation_id, "_tags": {}})
+        hdr = encode(RESP_HEADER_V1, {"correlation_id": correlation_id, "_tags": header_tags or {}})
     else:
         hdr = encode(RESP_HEADER_V0, {"correlation_id": correlation_id})
     return hdr + encode(sch, body)
